@@ -151,4 +151,95 @@ theorem respond_sendKey (s : Server) (w w' : World) (st : State) (t : Nat) (key 
   unfold respond
   rw [rad_sendKey s.cfg w w']
 
+theorem draw_text (r : Rng) (c : Call) : (r.draw c).2.text = r.text := rfl
+
+theorem drawMany_text (c : Call) (n : Nat) (r : Rng) : (drawMany c n r).2.text = r.text := by
+  induction n generalizing r with
+  | zero => rfl
+  | succ n ih => simp only [drawMany]; rw [ih]; rfl
+
+theorem randomPayload_text (r : Rng) (m : Nat) : (randomPayload r m).2.text = r.text := by
+  simp only [randomPayload]; rw [drawMany_text]; rfl
+
+theorem dtcLoop_text (mask n : Nat) (r : Rng) (d : List (Nat × Nat)) : (dtcLoop mask n r d).2.text = r.text := by
+  induction n generalizing r d with
+  | zero => rfl
+  | succ n ih => simp only [dtcLoop]; rw [ih]; rfl
+
+theorem handler_texts (c : Cfg) (w : World) (sess : Nat) (req : Request) :
+    (handler c w sess req).2.map (·.1) <+: plannedTexts c sess req := by
+  cases req with
+  | ecuReset pdu rt =>
+    simp only [handler, ecuReset, plannedTexts]
+    split <;> simp [Rng.seg, Rng.draw, stateful, mkRng]
+  | requestSeed t => simp [handler, requestSeed, plannedTexts, Rng.seg, randomPayload_text]
+  | sendKey t k => simp [handler, plannedTexts]
+  | routineControl pdu rid sf =>
+    simp only [handler, routineControl, plannedTexts]
+    split
+    · simp [Rng.seg, Rng.draw, stateful, mkRng, List.IsPrefix]
+    · split
+      · simp [Rng.seg, Rng.draw, stateful, mkRng, List.IsPrefix]
+      · split
+        · simp [Rng.seg, Rng.draw, stateful, mkRng]
+        · simp [Rng.seg, Rng.draw, stateful, mkRng, randomPayload_text]
+  | readDataById pdu did =>
+    simp only [handler, readDataById, plannedTexts]
+    split <;> simp [Rng.seg, Rng.draw, stateful, mkRng, randomPayload_text]
+  | writeDataById pdu did =>
+    simp only [handler, writeDataById, idThenFormat, plannedTexts]
+    split
+    · simp [Rng.seg, Rng.draw, stateful, mkRng, List.IsPrefix]
+    · split <;> simp [Rng.seg, Rng.draw, stateful, mkRng]
+  | ioControl pdu did =>
+    simp only [handler, ioControl, idThenFormat, plannedTexts]
+    split
+    · simp [Rng.seg, Rng.draw, stateful, mkRng, List.IsPrefix]
+    · split <;> simp [Rng.seg, Rng.draw, stateful, mkRng, randomPayload_text]
+  | clearDTC g =>
+    simp only [handler, clearDTC, plannedTexts]
+    split <;> simp [Rng.seg, Rng.draw, stateful, mkRng]
+  | reportDTCByStatusMask m =>
+    simp [handler, reportDTCByStatusMask, plannedTexts, Rng.seg, Rng.draw, stateful, mkRng, dtcLoop_text]
+  | readDTCOther => simp [handler, plannedTexts]
+  | other sid => simp [handler, plannedTexts]
+
+
+/-- a handler call reads the seeded oracle at the planned texts only -/
+theorem handler_reads_planned_only (c : Cfg) (r r' : String → DrawStream) (f a a' : DrawStream) (sess : Nat) (req : Request)
+    (h : ∀ x, some x ∈ plannedTexts c sess req → r x = r' x) :
+    handler c ⟨r, f, a⟩ sess req = handler c ⟨r', f, a'⟩ sess req := by
+  cases req with
+  | ecuReset pdu rt =>
+    have h1 := h (seedText c.seed sess [pyBytesRepr pdu]) (by simp [plannedTexts])
+    simp only [handler, ecuReset, stateful, mkRng, h1]
+  | requestSeed t => rfl
+  | sendKey t k => rfl
+  | routineControl pdu rid sf =>
+    have h1 := h (seedText c.seed sess [toString sidRoutineControl, toString rid]) (by simp [plannedTexts])
+    have h2 := h (addSeed (seedText c.seed sess [toString sidRoutineControl, toString rid]) (toString sf)) (by simp [plannedTexts])
+    have h3 := h (seedText c.seed sess [pyBytesRepr pdu]) (by simp [plannedTexts])
+    simp only [handler, routineControl, stateful, mkRng, h1, h2, h3] <;> rfl
+  | readDataById pdu did =>
+    have h1 := h (seedText c.seed sess [pyBytesRepr pdu]) (by simp [plannedTexts])
+    simp only [handler, readDataById, stateful, mkRng, h1] <;> rfl
+  | writeDataById pdu did =>
+    have h1 := h (seedText c.seed sess [toString sidWdbi, toString did]) (by simp [plannedTexts])
+    have h2 := h (seedText c.seed sess [pyBytesRepr pdu]) (by simp [plannedTexts])
+    simp only [handler, writeDataById, idThenFormat, stateful, mkRng, h1, h2] <;> rfl
+  | ioControl pdu did =>
+    have h1 := h (seedText c.seed sess [toString sidIoctl, toString did]) (by simp [plannedTexts])
+    have h2 := h (seedText c.seed sess [pyBytesRepr pdu]) (by simp [plannedTexts])
+    simp only [handler, ioControl, idThenFormat, stateful, mkRng, h1, h2] <;> rfl
+  | clearDTC g =>
+    have h1 := h (seedText c.seed sess [toString sidClearDTC, toString g]) (by simp [plannedTexts])
+    simp only [handler, clearDTC, stateful, mkRng, h1] <;> rfl
+  | reportDTCByStatusMask m =>
+    have h1 := h (seedText c.seed sess []) (by simp [plannedTexts])
+    have h2 := h (seedText c.seed sess [toString sidReadDTC, toString m]) (by simp [plannedTexts])
+    simp only [handler, reportDTCByStatusMask, stateful, mkRng, h1, h2] <;> rfl
+  | readDTCOther => rfl
+  | other sid => rfl
+
+
 end Gallia.VEcuRng
